@@ -558,4 +558,16 @@ def rule_no_hidden_state(ctx: Ctx):
     c16.rule_no_hidden_instance_state(ctx, rule="C17.excluded")
 
 
-RULES = [rule_carry, rule_excluded, rule_steps, rule_attach, rule_first_attachment, rule_no_snapshot, rule_restart_guard, rule_bound_triggers, rule_listener_identity, rule_copy_hooks, rule_clone_inspects_its_own, rule_no_hidden_state]
+def rule_no_process_wide_channel(ctx: Ctx):
+    """C17.carry: a clone is rebuilt by the restore path (`__setstate__` -> listener attachment -> inspection of each provider ->
+    callback resolution). A process-wide mutable written on that path - a memo of inspected listeners, of bound events, of resolved
+    callbacks - is a channel between the original and its clones: what the original put there is found again by the clone's equal
+    (but distinct) copies, so the clone's callbacks end up bound to the original's objects."""
+    from . import c16
+
+    c16.rule_inventory(ctx, rule="C17.carry", writers_reachable_from=[ctx.p.find_fn("StateMachine.__setstate__"), ctx.p.find_fn("StateMachine.__getstate__"),
+                                                                      ctx.p.find_fn("StateMachine.__deepcopy__"), ctx.p.find_fn("StateMachine.__copy__"),
+                                                                      ctx.p.find_fn("StateMachine.__reduce__"), ctx.p.find_fn("StateMachine.__reduce_ex__")])
+
+
+RULES = [rule_carry, rule_excluded, rule_steps, rule_attach, rule_first_attachment, rule_no_snapshot, rule_restart_guard, rule_bound_triggers, rule_listener_identity, rule_copy_hooks, rule_clone_inspects_its_own, rule_no_hidden_state, rule_no_process_wide_channel]
